@@ -161,6 +161,16 @@ CLAIMED = {
         design="§4 C17", technique="source-to-Coq translation of plane tables + exact model over Q(sqrt5) + Coq proof (generic soundness, Cramer, vm_compute corners) + correspondence",
         note="completeness of the enumeration (every vertex of the intersection is found) holds by construction of vertices as triple intersections but is not stated as a theorem; "
              "antiprism/pyramid closed forms validated numerically only."),
+    "C18": dict(
+        text="Finite domain, decided exhaustively. Translator tie: entry names (file order), short codes, vertex counts and cited sources of all seven JSON "
+             "tables are regenerated (Gen/Tables.v); theorems by vm_compute: family sizes 5/13/13/92/16/6/145 with distinct keys, every Platonic/Archimedean/"
+             "Catalan entry is a textbook solid with its textbook vertex count and each is tabulated once (reference satisfies V-E+F=2), every repository "
+             "entry citing a family refers to an existing entry with the same vertex count. Correspondence over all 290 entries: builds a ConvexPolyhedron, "
+             "names/iteration order/get_shape agree with the data file, (V,E,F) of the built solid, unit volume (exact C01 model), equal edges and regular "
+             "faces (Platonic, Archimedean, Johnson), Catalan insphere, repository entries coincide with the cited family entry (distance multisets), "
+             "KeyError for unknown names/DOIs.",
+        design="§4 C18", technique="data-to-Coq translation + finite-domain proofs by vm_compute + exhaustive correspondence",
+        note="reference (V,E,F) table hand-written; geometric facts need the hull and are decided by the exhaustive correspondence (1e-6); known finding science-J86-edge-precision."),
 }
 
 REASON_TODO = "check not built yet (work in progress this round)"
